@@ -4,6 +4,7 @@ CONSTANTS
   Tier = "thorough"
   MathNames <- MC_MathNames
   ResidChoices = {TRUE}
+  MaxGenerations = 2
   AsFound_KUndefined = FALSE
 INVARIANT TypeOK
 INVARIANT C20_Closed
